@@ -1,6 +1,7 @@
 (** C03 - frame reassembly depends on the bytes received, not on how reads split them. *)
 From Coq Require Import String ZArith List.
 From NX Require Import Bytes Frame Wire Reasm Dispatch_proofs Frame_proofs Reasm_proofs C03_corollaries.
+From NX Require PyLite Src_all Src_serialframe_proofs Src_reasm_proofs.
 Open Scope Z_scope.
 
 (** for every way the transport splits the bytes into reads (any number of empty
@@ -45,8 +46,35 @@ Example C03_example :
   Some ([(2, []); (2, [])], []).
 Proof. vm_compute. reflexivity. Qed.
 
+(** ** CommHandler._read_hdr / _read_frame of comm.py as they are now: the regenerated
+    abstract syntax, run by the PyLite interpreter on a handler whose link hands out the
+    chunks [l] (scripted stub of tools/harness/prelude_py.py, translated with the rest) and
+    whose buffer holds [prev], computes exactly the model above - result AND receiver state
+    (buffer, unread chunks) - for every buffer, every chunk list and every fuel above a bound
+    linear in the bytes and chunks in flight; the interpreter never runs out of fuel *)
+Section OnSource.
+Import PyLite Src_all Src_serialframe_proofs Src_reasm_proofs.
+Open Scope string_scope.
+
+Theorem C03_read_frame_src : forall fuel prev l,
+  (5 + measure prev l <= fuel)%nat ->
+  call_method program fuel (ch prev l) "_read_frame" [] = emb_frame_meth (read_frame prev l).
+Proof. exact read_frame_spec. Qed.
+
+Theorem C03_read_frame_returns_src : forall fuel prev l,
+  (5 + measure prev l <= fuel)%nat ->
+  call_method program fuel (ch prev l) "_read_frame" [] <> Fuel.
+Proof. exact read_frame_no_fuel. Qed.
+
+Theorem C03_link_read_src : forall n l,
+  call_method program (1 + n) (intf l) "read" [] =
+  PyLite.Ok (PBytes (fst (read l)), intf (snd (read l))).
+Proof. exact intf_read_spec. Qed.
+End OnSource.
+
 Print Assumptions C03_chunking.
 Print Assumptions C03_one_call_frame.
 Print Assumptions C03_one_call_none.
 Print Assumptions C03_back_to_back.
 Print Assumptions C03_after_noise.
+Print Assumptions C03_read_frame_src.
